@@ -74,6 +74,12 @@ MODEL = dict(
                                    "unfreeze", "set_frozen", "pause", "unpause", "set_id", "set_ct"}),
              thorough=dict(Depth=6, EmitMod=50),
              invariants=["NoViolation", "Refines", "ImplInv"]),
+        # recovery after partial and address freezes on both accounts (mint, freeze, set_frozen, set_rec, recover)
+        dict(name="recovery", module="MC_Rwa",
+             constants=dict(_c, Acct={"a", "b"}, Amts={1, 2}, Depth=5, BUG_C04=False, Emit=True, EmitMod=10,
+                            Kinds={"mint", "freeze", "set_frozen", "set_rec", "recover", "set_id"}),
+             thorough=dict(Depth=7, EmitMod=40),
+             invariants=["NoViolation", "Refines", "ImplInv"]),
         # vacuity guards: on the model of the pinned code (transfer_from without validate_transfer) the gate
         # monitor fails within 3 calls, and frozen > balance is reached (mint, freeze, approve, transfer_from)
         dict(name="nonvacuous", module="MC_Rwa",
